@@ -33,3 +33,12 @@ claim("C15",
       "replays use the real json and the unmodified module",
       "CrossHair symbolic execution (z3) of real serdes.serialize/deserialize over solver-built nested values",
       "DESIGN.md §3 C15")
+claim("C20",
+      "Bounded symbolic round-trip of every wire codec: OperationUpdate (all types x actions x sub-types; optional strings present/absent/empty; every option "
+      "object with arbitrary ints), all 14 create_* factories (wire dict must carry id/parent/name/payload/error/options), Operation in dict and JSON form (all "
+      "enums, 4 aware timestamps incl. non-UTC offsets, each details class with symbolic fields), invocation input/output. The millisecond timestamp kernels "
+      "are translated from the AST and decided by z3 for EVERY timestamp 1970-2100 (encoder bit-exact QF_BVFP; decoder with the standard relative-error model).",
+      "equality modulo the normalisation the statement allows ('' == absent, {}-encoded object == absent); datetime arithmetic inside CPython is trusted "
+      "(total_seconds = correctly rounded us/1e6; fromtimestamp = modf, *1e6, round-half-even); strings len <= 2",
+      "CrossHair symbolic execution (z3) of the real to_dict/from_dict/to_json_dict/from_json_dict pairs + z3 FP/real queries generated from TimestampConverter's AST",
+      "DESIGN.md §3 C20")
